@@ -1,5 +1,6 @@
 import Driver.Util
 import DiskfsModel.Model.Lru
+import DiskfsModel.Model.LruFile
 import DiskfsModel.Generated.Lru
 namespace Driver.Lru
 open Diskfs Diskfs.Lru Driver
@@ -96,6 +97,176 @@ def forced (args : List String) : String :=
   let rets := s.threads.map fun th => ".".intercalate (th.rets.map fun (_, r) => retStr r)
   s!"rets={"/".intercalate rets}\tstate={stateStr s}\tdone={if allDone s then 1 else 0}\tpanic={if s.panicked then 1 else 0}"
 
+/-! ### lru.handles: N handles (one machine thread each) on real files, calls interleaved one at a time -/
+
+/-- the engine's file contents (harness/engines/lru/handles.go `contentByte`) -/
+def contentByte (kind seed i : Nat) : UInt8 :=
+  if kind == 0 then UInt8.ofNat ((seed + i * 7 + (i / 256) * 13 + (i / 4096) * 101) % 251)
+  else
+    let m := 18446744073709551616
+    let x := ((i + seed * 7919 + 1) * 0x9E3779B97F4A7C15) % m
+    let x := x ^^^ (x >>> 30)
+    let x := (x * 0xBF58476D1CE4E5B9) % m
+    let x := x ^^^ (x >>> 27)
+    UInt8.ofNat ((x >>> 32) % 256)
+
+def content (kind seed size : Nat) : Bytes := (List.range size).map (contentByte kind seed)
+
+def hashBytes (b : Bytes) : Nat := b.foldl (fun h x => (h * 31 + x.toNat) % 4294967296) 7
+
+structure HFile where
+  f : FileD
+  content : Bytes
+
+def parseInt (s : String) : Int := (s.toInt?).getD 0
+def parseNat (s : String) : Nat := (s.toNat?).getD 0
+
+/-- `size:start:<stored.c/stored.c/…|->:<fragpos.fragoff|->:kind.seed` -/
+def parseFile (bs : Nat) (s : String) : Option HFile :=
+  match s.splitOn ":" with
+  | [sz, st, bl, fr, ks] =>
+    let blocks : List BlockD := if bl == "-" then [] else (bl.splitOn "/").map fun x =>
+      match x.splitOn "." with
+      | [a, c] => ⟨parseNat a, c == "1"⟩
+      | _ => ⟨0, false⟩
+    let frag : Option (Pos × Nat) := match fr.splitOn "." with
+      | [p, o] => some (parseInt p, parseNat o)
+      | _ => none
+    let (kind, seed) := match ks.splitOn "." with
+      | [k, sd] => (parseNat k, parseNat sd)
+      | _ => (0, 0)
+    let size := parseNat sz
+    some ⟨⟨bs, size, parseNat st, blocks, frag⟩, content kind seed size⟩
+  | _ => none
+
+/-- location of every data block with its index -/
+def blockLocs (f : FileD) : List (Nat × Nat) :=
+  (f.blocks.foldl (fun (acc : List (Nat × Nat) × Nat × Nat) b => (acc.1 ++ [(acc.2.1, acc.2.2)], acc.2.1 + b.size, acc.2.2 + 1))
+    ([], f.start, 0)).1
+
+/-- the image the handles read: data blocks are the files' contents cut at block boundaries (what C07
+    says the builder stores), fragment blocks hold the files' tails at their fragment offsets -/
+def mkImage (bs : Nat) (files : List HFile) (frags : List (Int × Nat)) : Image × (Pos → Data) :=
+  let dev : Nat → Nat → Bool → Bytes := fun loc _ _ =>
+    (files.findSome? fun hf =>
+      (blockLocs hf.f).findSome? fun (l, i) =>
+        if l == loc && (hf.f.blocks.getD i ⟨0, false⟩).size != 0 then some ((hf.content.drop (i * bs)).take bs) else none).getD []
+  let fragBytes : List Bytes := frags.map fun (pos, len) =>
+    (List.range len).map fun j =>
+      (files.findSome? fun hf =>
+        match hf.f.frag with
+        | some (p, off) =>
+          let tail := hf.f.size % bs
+          if p == pos && off ≤ j && j < off + tail then some (hf.content.getD (hf.f.blocks.length * bs + (j - off)) 0) else none
+        | none => none).getD 0
+  let disk : Pos → Data := fun pos => match frags.findIdx? (fun x => x.1 == pos) with
+    | some i => i + 1
+    | none => 0
+  (⟨dev, fun d => if d == 0 then [] else fragBytes.getD (d - 1) []⟩, disk)
+
+/-- run thread `t` (idle, empty program) through one cache call -/
+def callOp (dsk : Pos → Data) (slack : Nat) (s : Sys) (t : Tid) (op : Op) : Sys × Ret :=
+  match s.threads[t]? with
+  | none => (s, .err)
+  | some th =>
+    let s1 := setThread s t { th with prog := [op] }
+    let rec go (s : Sys) : Nat → Sys
+      | 0 => s
+      | fuel + 1 =>
+        match step dsk slack s t with
+        | none => s
+        | some s' =>
+          match s'.threads[t]? with
+          | some th' => if th'.rets.length > th.rets.length then s' else go s' fuel
+          | none => s'
+    let s2 := go s1 16
+    match (s2.threads[t]?).bind (·.rets.getLast?) with
+    | some (_, r) => (s2, r)
+    | none => (s2, .err)
+
+/-- run a client on thread `t`; returns the state, the answer and whether one of its gets was a miss -/
+def runClient {ρ} (dsk : Pos → Data) (slack : Nat) (t : Tid) : Client ρ → Sys → Bool → Sys × ρ × Bool
+  | .done r, s, m => (s, r, m)
+  | .get pos k, s, m =>
+    let x := callOp dsk slack s t (.get pos true)
+    runClient dsk slack t (k x.2.value) x.1 (m || (match x.2 with | .miss _ => true | _ => false))
+  | .setMax n k, s, m =>
+    let x := callOp dsk slack s t (.setMax n)
+    runClient dsk slack t k x.1 m
+
+def outStr (r : HRes) (miss : Bool) : String :=
+  match r.out with
+  | .data d eof => s!"r{d.length}:{if eof then "E" else "-"}:{hashBytes d}:d{r.devReads}f{if miss then 1 else 0}"
+  | .err d => s!"r{d.length}:x:{hashBytes d}:d{r.devReads}f{if miss then 1 else 0}"
+  | .pos (some p) => s!"s{p}"
+  | .pos none => "sx"
+  | .resized => "c"
+
+def parseHOp (tok : String) : Option (Nat × HOp) :=
+  match tok.splitOn "." with
+  | [h, o] =>
+    let body := (o.drop 1).toString
+    match o.front with
+    | 'r' => some (parseNat h, .read (parseNat body))
+    | 'c' => some (parseNat h, .setCache (parseInt body))
+    | _ => none
+  | [h, o, off] =>
+    let w : Spec.Whence := match (o.drop 1).toString with
+      | "0" => .start | "1" => .current | _ => .end_
+    if o.front == 's' then some (parseNat h, .seek w (parseInt off)) else none
+  | _ => none
+
+/-- lru.handles bs=<n> max=<int|-> pre=<pos,…|-> frags=<pos:len;…|-> files=<file>|<file>… ops=<h>.<op>,…
+    → per call `<answer>@<len(cache)>:<positions, most recently used first>`, and `seq=1` iff every handle
+    got, call by call, what `handleC` answers for its own program as the only reader -/
+def handles (args : List String) : String :=
+  let bs := argNatD args "bs" 4096
+  let slack := Generated.Lru.addTrimSlack
+  let fileToks := ((arg args "files").getD "").splitOn "|"
+  let files := fileToks.filterMap (parseFile bs)
+  if files.length != fileToks.length then "bad-files" else
+  let frags : List (Int × Nat) := match (arg args "frags").getD "-" with
+    | "-" => []
+    | fs => (fs.splitOn ";").map fun x => match x.splitOn ":" with
+      | [p, l] => (parseInt p, parseNat l)
+      | _ => (0, 0)
+  let (im, dsk) := mkImage bs files frags
+  let opToks := match (arg args "ops").getD "-" with
+    | "-" => []
+    | o => o.splitOn ","
+  let ops := opToks.filterMap parseHOp
+  if ops.length != opToks.length then "bad-ops" else
+  let n := files.length
+  -- thread n is the goroutine that opened the handles: its cache calls put the metadata blocks there
+  let s0 := init 32768 (List.replicate (n + 1) [])
+  let pre : List Int := match (arg args "pre").getD "-" with
+    | "-" => []
+    | p => (p.splitOn ",").map parseInt
+  let s1 := pre.foldl (fun s p => (callOp dsk slack s n (.get p true)).1) s0
+  let s2 := match argInt args "max" with
+    | some m => (callOp dsk slack s1 n (.setMax m)).1
+    | none => s1
+  let step1 := fun (acc : Sys × List HSt × List String × List (Nat × HRes)) (x : Nat × HOp) =>
+    let (s, hs, outs, log) := acc
+    match files[x.1]?, hs[x.1]? with
+    | some hf, some h =>
+      let cl : Client (HRes × HSt) := match x.2 with
+        | .read k => readC im hf.f h k (fun r h' => .done (r, h'))
+        | .seek w o => .done (seekH hf.f h w o)
+        | .setCache c => .setMax (cacheBlocks hf.f.bs c) (.done (⟨.resized, 0⟩, h))
+      let (s', (r, h'), miss) := runClient dsk slack x.1 cl s false
+      (s', hs.set x.1 h', s!"{outStr r miss}@{stateStr s'}" :: outs, (x.1, r) :: log)
+    | _, _ => (s, hs, "nohandle" :: outs, log)
+  let (sEnd, _, outs, log) := ops.foldl step1 (s2, List.replicate n HSt.fresh, [], [])
+  let seqOk := (List.range n).all fun t =>
+    match files[t]? with
+    | some hf =>
+      let prog := (ops.filter (·.1 == t)).map (·.2)
+      let got := ((log.reverse).filter (·.1 == t)).map (·.2)
+      decide ((handleC im hf.f HSt.fresh prog []).result dsk = got)
+    | none => false
+  s!"{",".intercalate outs.reverse}\tseq={if seqOk then 1 else 0}\tpanic={if sEnd.panicked then 1 else 0}"
+
 end Driver.Lru
 
 def main : IO Unit := Driver.runLoop fun op args =>
@@ -103,4 +274,5 @@ def main : IO Unit := Driver.runLoop fun op args =>
   | "lru.trace" => Driver.Lru.trace args
   | "lru.sched" => Driver.Lru.sched args
   | "lru.forced" => Driver.Lru.forced args
+  | "lru.handles" => Driver.Lru.handles args
   | _ => "unknown-op"
